@@ -38,6 +38,10 @@ def gen_context(rng):
 class Gen:
     """Type-directed generator: `dim` is a key identifying a dimension (computed from the oracle semantics)."""
 
+    # random ratio exponents leave float noise in pint's exponents (2.54 * (1/2.54) != 1), which makes the real
+    # is_equivalent() fail for reasons outside the exact model: they are exercised by exact corpus cases instead
+    ratio_exponent_p = 0.0
+
     def __init__(self, rng, ctx, sem):
         self.rng, self.ctx, self.sem = rng, ctx, sem
         self.by_dim = {}
@@ -99,7 +103,7 @@ class Gen:
                            ['flt', '2.0'], ['mul', ['int', -1], ['qty', '2', [[0, 'dimensionless', '1']]]]])
             val = Fraction(*ex[1:]) if ex[0] == 'rat' else (Fraction(ex[1]) if ex[0] in ('int', 'flt') else
                                                            (Fraction(ex[1]) if ex[0] == 'qty' else Fraction(-2)))
-            if r.random() < 0.3:
+            if r.random() < self.ratio_exponent_p:
                 # an exponent that itself needs a unit conversion: a ratio of two quantities of one dimension in
                 # different units whose physical value is the nice number `val`
                 rx = self.ratio_exponent(val)
@@ -542,6 +546,10 @@ class Phys:
                 raise Unsupported('domain')
             if a[1] in ('exp', 'sinh', 'cosh') and abs(v) > 500:
                 raise Unsupported('range')
+            if a[1] in ('sin', 'cos', 'tan') and abs(v) > 1e4:
+                raise Unsupported('ill-conditioned: trigonometric function of a huge argument')
+            if a[1] in ('exp', 'sinh', 'cosh', 'tanh') and abs(v) > 30:
+                raise Unsupported('ill-conditioned: exponential of a large argument amplifies float noise')
             return f(v)
         if h == 'fnN':
             x, y = self.plain(a[2], rho), self.plain(a[3], rho)
